@@ -77,40 +77,26 @@ func arrayLitElems(a *ssa.Alloc) ([]ssa.Value, bool) {
 	return out, true
 }
 
-// describeBytes renders what is known about a byte-slice/string argument.
+// describeBytes renders what is known about a byte-slice/string argument: constants known to the
+// lattice, array literals whose elements the lattice knows, otherwise the provenance (descVal).
 func describeBytes(v ssa.Value, get func(ssa.Value) lat) string {
+	if l := get(v); l.k == kNil {
+		return "nil"
+	}
 	root := v
-	// full-slice of something?
 	if s, ok := v.(*ssa.Slice); ok && s.Low == nil && s.High == nil {
 		root = s.X
 	}
-	switch x := root.(type) {
-	case *ssa.Const:
-		if x.Value != nil && x.Value.Kind() == constant.String {
-			return fmt.Sprintf("%q", constant.StringVal(x.Value))
-		}
-		if x.Value == nil {
-			return "nil"
-		}
-	case *ssa.Convert:
-		if k, ok := x.X.(*ssa.Const); ok && k.Value != nil && k.Value.Kind() == constant.String {
-			return fmt.Sprintf("%q", constant.StringVal(k.Value))
-		}
-		return describeBytes(x.X, get)
-	case *ssa.Parameter:
-		l := get(x)
-		if l.k == kNil {
-			return "nil"
-		}
-		return paramDesc(x)
-	case *ssa.Alloc:
-		if elems, ok := arrayLitElems(x); ok {
+	if a, ok := root.(*ssa.Alloc); ok {
+		if elems, ok := arrayLitElems(a); ok && len(elems) <= 64 {
+			stored := 0
 			var parts []string
 			for _, e := range elems {
 				if e == nil {
 					parts = append(parts, "0")
 					continue
 				}
+				stored++
 				l := get(e)
 				if l.k == kConst && l.c.Kind() == constant.Int {
 					parts = append(parts, l.c.ExactString())
@@ -118,29 +104,15 @@ func describeBytes(v ssa.Value, get func(ssa.Value) lat) string {
 					parts = append(parts, "("+describeScalar(e)+")")
 				}
 			}
-			return "[" + strings.Join(parts, " ") + "]"
-		}
-	case *ssa.UnOp:
-		if x.Op == token.MUL {
-			if fa, ok := x.X.(*ssa.FieldAddr); ok {
-				return "field:" + fieldName(fa)
-			}
-			if g, ok := x.X.(*ssa.Global); ok {
-				return "global:" + g.Name()
+			if stored > 0 {
+				return "[" + strings.Join(parts, " ") + "]"
 			}
 		}
-	case *ssa.FieldAddr:
-		return "field:" + fieldName(x)
-	case *ssa.Call:
-		return "call:" + short(calleeString(x))
-	case *ssa.Slice:
-		return "slice(" + describeBytes(x.X, get) + ")"
 	}
-	l := get(v)
-	if l.k == kNil {
-		return "nil"
+	if p, ok := root.(*ssa.Parameter); ok {
+		return paramDesc(p)
 	}
-	return "?"
+	return descVal(v)
 }
 
 func calleeString(c *ssa.Call) string {
@@ -177,6 +149,8 @@ func describeScalar(v ssa.Value) string {
 		return "call:" + short(calleeString(x))
 	case *ssa.Parameter:
 		return paramDesc(x)
+	case *ssa.FreeVar:
+		return freeVarDesc(x)
 	case *ssa.UnOp:
 		if x.Op == token.MUL {
 			return "*" + describeScalar(x.X)
@@ -195,7 +169,7 @@ func describeScalar(v ssa.Value) string {
 
 // observe runs constant propagation and returns the executable calls whose callee name passes filter.
 func (p *Program) observe(f *ssa.Function, args map[string]lat, assumes []Assume, filter func(callee string) bool) ([]obsCall, error) {
-	q := &GuardQuery{P: p, Root: f, Assumes: assumes}
+	q := &GuardQuery{P: p, Root: f, Assumes: assumes, MaxDepth: 1}
 	if len(args) > 0 {
 		q.Args = make([]lat, len(f.Params))
 		for i := range q.Args {
@@ -320,6 +294,13 @@ func (c *Ctx) transcriptRule(p *Program, rule, what string, f *ssa.Function, arg
 	if err != nil {
 		c.undecided(rule, construct, err.Error(), p.fnPos(f))
 		return
+	}
+	if n := len(want); n > 0 && want[n-1] == "…" {
+		// only the prefix is specified
+		want = want[:n-1]
+		if len(got) > len(want) {
+			got = got[:len(want)]
+		}
 	}
 	g, w := strings.Join(got, " ‖ "), strings.Join(want, " ‖ ")
 	if g == w {
